@@ -471,6 +471,23 @@ impl<'a, 'tcx> Cx<'a, 'tcx> {
             Rvalue::Discriminant(p) => {
                 out.push_str("{\"k\":\"discr\",\"p\":");
                 self.place(*p, out);
+                // all discriminant values of the enum: lets a consumer see that `[1 -> a] else -> b` and
+                // `[0 -> b, 1 -> a] else -> unreachable` are the same two-way decision
+                let pty = p.ty(self.body, self.tcx).ty;
+                if let ty::Adt(adt, _) = pty.kind() {
+                    if adt.is_enum() && adt.variants().len() <= 64 {
+                        out.push_str(",\"dv\":[");
+                        let mut first = true;
+                        for (_, d) in adt.discriminants(self.tcx) {
+                            if !first {
+                                out.push(',');
+                            }
+                            first = false;
+                            let _ = write!(out, "{}", d.val);
+                        }
+                        out.push(']');
+                    }
+                }
                 out.push('}');
             }
             Rvalue::Aggregate(kind, fields) => {
